@@ -288,8 +288,8 @@ def _re_escape(it, s):
 
 
 def _deque(it, src=None, maxlen=None):
-    if maxlen == 0 and src is not None:
-        # drain
+    if isinstance(maxlen, int) and not isinstance(maxlen, bool) and maxlen >= 0 and src is not None:
+        # deque(iterable, maxlen=k) consumes the whole iterable whatever k is (it keeps the last k items, opaque here)
         if isinstance(src, Stream):
             it.emit(Ev('Drain', src=src, how='deque'))
             src.drained = True
@@ -360,6 +360,16 @@ def _fs_exists(it, path):
     return wrap(r)
 
 
+FS_ISDIR = z3.Function('fs_isdir', StrS, z3.BoolSort())
+
+
+def _fs_isdir(it, path):
+    """os.path.isdir: a read of the file-system state, recorded in the trace"""
+    r = FS_ISDIR(term(path, StrS))
+    it.emit(Ev('Call', target='os.path.isdir', method='__call__', args=(path,), kwargs={}, result=r, objs=(path,)))
+    return wrap(r)
+
+
 def _json_dumps(it, obj, **kw):
     """json.dumps: an uninterpreted injective-on-JSON-values text (assumption T8); options are part of the symbol"""
     opts = ','.join('%s=%s' % (k, kw[k] if isinstance(kw[k], (bool, int, str, type(None))) else getattr(kw[k], 'name', '?'))
@@ -417,13 +427,13 @@ def external_module(it, dotted):
     elif dotted == 'os':
         p = ModuleV('os.path')
         p.attrs.update(join=_uf_join(), dirname=_uf_str('os.path.dirname', 1), basename=_uf_str('os.path.basename', 1),
-                       exists=Builtin('os.path.exists', _fs_exists))
+                       exists=Builtin('os.path.exists', _fs_exists), isdir=Builtin('os.path.isdir', _fs_isdir))
         a['path'] = p
         a['cpu_count'] = Builtin('os.cpu_count', lambda it: 8)
         a['getpid'] = Builtin('os.getpid', lambda it: 4242)
     elif dotted == 'os.path':
         a.update(join=_uf_join(), dirname=_uf_str('os.path.dirname', 1), basename=_uf_str('os.path.basename', 1),
-                 exists=Builtin('os.path.exists', _fs_exists))
+                 exists=Builtin('os.path.exists', _fs_exists), isdir=Builtin('os.path.isdir', _fs_isdir))
     elif dotted == 'queue':
         lib.EXC_PARENT.setdefault('Empty', 'Exception')
         lib.EXC_PARENT.setdefault('Full', 'Exception')
@@ -437,7 +447,8 @@ def external_module(it, dotted):
         a['JSONEncoder'] = ClassV('JSONEncoder', node=None)
         a['JSONDecoder'] = ClassV('JSONDecoder', node=None)
     elif dotted == 'collections':
-        a.update(deque=Builtin('collections.deque', _deque), namedtuple=Builtin('namedtuple', _namedtuple))
+        a.update(deque=Builtin('collections.deque', _deque), namedtuple=Builtin('namedtuple', _namedtuple),
+                 OrderedDict=Builtin('collections.OrderedDict', lambda it, *args: lib._b_dict(it, *args)))
         abc = ModuleV('collections.abc')
         abc.attrs['Iterable'] = T('Iterable')
         a['abc'] = abc
